@@ -159,6 +159,12 @@ def sizeField : List (List Char) → Except String Int
     | none => .error "period"
   | _ :: _ :: _ => .error "period"
 
+/-- the test of `helpers.period` on `unit:date`: the unit is finer than the precision of the date —
+    the date's own unit outweighs it (`unit_weights`), or the unit is the week and the date has
+    month precision (a week is finer than a month although both weigh the same; repair F-C05) -/
+def finerThanDate (unit base : DUnit) : Bool :=
+  decide (unitWeight base > unitWeight unit) || (unit == .week && base == .month)
+
 /-- the `unit:date[:size]` form, already split on ':' -/
 def parseUnitForm (u mid : List Char) (rest : List (List Char)) : Except String Period :=
   if (lexIso mid).isNone then .error "period" else
@@ -172,7 +178,7 @@ def parseUnitForm (u mid : List Char) (rest : List (List Char)) : Except String 
       match sizeField rest with
       | .error e => .error e
       | .ok n =>
-        if unitWeight base.unit > unitWeight unit then .error "period"
+        if finerThanDate unit base.unit then .error "period"
         else .ok ⟨unit, base.start, n⟩
 
 /-- `helpers.period(value: str)` -/
